@@ -356,6 +356,7 @@ func runProcessScript(c procCase) (fails []h.Failure, obs observations) {
 	ansMu.Unlock()
 	// handler log: one request at a time per worker, each token handled at most once
 	lb, _ := os.ReadFile(logPath)
+	logReadAt := time.Now().UnixNano()
 	type iv struct {
 		tok        string
 		start, end int64
@@ -386,7 +387,10 @@ func runProcessScript(c procCase) (fails []h.Failure, obs observations) {
 	if obs.faults == 0 {
 		for pid, ivs := range per {
 			for _, x := range ivs {
-				if !strings.HasPrefix(x.tok, "hang") && !strings.HasPrefix(x.tok, "stall") && x.end == 1<<62 {
+				// (a request entered less than 2 s before the log was read may simply still be
+				// running: a connection that waited in the accept queue - behind workers held
+				// by hanging requests - is taken up late, possibly while the script is over)
+				if !strings.HasPrefix(x.tok, "hang") && !strings.HasPrefix(x.tok, "stall") && x.end == 1<<62 && logReadAt-x.start > int64(2*time.Second) {
 					fail("request-cut-short", fmt.Sprintf("worker %s started request %q and never completed it although no fault was injected and the request needs far less than --timeout", pid, x.tok))
 				}
 			}
